@@ -400,9 +400,9 @@ func ghostName(fun ast.Expr) (string, []ast.Expr) {
 
 var ghostBuiltins = map[string]bool{
 	"old": true, "implies": true, "iff": true, "ite": true, "is": true, "as": true, "errIs": true,
-	"fresh": true, "ncalls": true, "callarg": true, "callret": true, "forall": true, "exists": true,
-	"pendingErr": true, "pendingFailed": true, "ctxDone": true, "allocated": true, "sameSlice": true,
-	"deferActive": true, "deferVal": true, "mathInt": true, "fitsInt64": true, "fitsInt32": true,
+	"fresh": true, "ncalls": true, "callarg": true, "callret": true, "firstret": true, "forall": true, "exists": true,
+	"pendingErr": true, "pendingFailed": true, "ctxDone": true, "allocated": true, "sameSlice": true, "sameFloat": true,
+	"deferActive": true, "deferVal": true, "deferObj": true, "dynret": true, "mathInt": true, "fitsInt64": true, "fitsInt32": true,
 	"strLen": true, "boolToInt": true, "uninterp": true, "loopEntry": true, "isNaN": true, "isInf": true,
 	"toFloat": true, "exactCmpIF": true, "errIsCtx": true, "roundHalfAway": true, "truncF": true, "f2iInRange64": true, "f2iTrunc": true,
 }
@@ -576,6 +576,9 @@ func (env *specEnv) adjustRecv(recv SV, rt types.Type, sel *types.Selection) SV 
 
 func (env *specEnv) conversion(e *ast.CallExpr, to types.Type) SV {
 	x := env.x
+	if isNilExpr(e.Args[0]) {
+		return x.enc.zero(to)
+	}
 	from := env.typeOf(e.Args[0])
 	v := env.eval(e.Args[0])
 	if b, ok := from.Underlying().(*types.Basic); ok && b.Info()&types.IsUntyped != 0 {
@@ -751,6 +754,14 @@ func (env *specEnv) ghost(name string, targs []ast.Expr, e *ast.CallExpr) SV {
 	case "ncalls":
 		k := x.callCountKey(env.calleeKey(e.Args[0]))
 		return x.get(env.st, k)
+	case "firstret":
+		fk := env.calleeKey(e.Args[0])
+		t := env.typeOf(e)
+		which := ""
+		if tv := env.info.Types[e.Args[1]]; tv.Value != nil {
+			which = tv.Value.ExactString()
+		}
+		return x.get(env.st, x.callTraceKey(fk, "first", which, x.enc.sortOf(t), t))
 	case "callarg", "callret":
 		fk := env.calleeKey(e.Args[0])
 		t := env.typeOf(e)
@@ -764,6 +775,33 @@ func (env *specEnv) ghost(name string, targs []ast.Expr, e *ast.CallExpr) SV {
 		}
 		k := x.callTraceKey(fk, name[4:], which, x.enc.sortOf(t), t)
 		return x.get(env.st, k)
+	case "dynret":
+		// dynret[T](f, i, args...): result i of calling function value f on args
+		// (the same uninterpreted symbol the engine uses for the real call)
+		ft := env.typeOf(e.Args[0])
+		sig, ok := ft.Underlying().(*types.Signature)
+		if !ok {
+			env.fail("dynret: first argument is not a function value")
+		}
+		idx := 0
+		if tv := env.info.Types[e.Args[1]]; tv.Value != nil {
+			idx = atoi(tv.Value.ExactString())
+		}
+		nm := "dyn_" + sanitize(sig.String())
+		if len(nm) > 70 {
+			nm = nm[:70]
+		}
+		targs := []Term{x.asTerm(env.eval(e.Args[0]), ft)}
+		for i, a := range e.Args[2:] {
+			v := env.eval(a)
+			at := env.typeOf(a)
+			tv := x.asTerm(v, at)
+			if i < sig.Params().Len() && isInterface(sig.Params().At(i).Type()) && !isErrorType(sig.Params().At(i).Type()) && tv.Sort != SAny {
+				tv = x.makeInterface(v, at)
+			}
+			targs = append(targs, tv)
+		}
+		return x.ufS(fmt.Sprintf("%s_r%d", nm, idx), x.enc.sortOf(env.typeOf(e)), targs...)
 	case "forall", "exists":
 		fl, ok := e.Args[0].(*ast.FuncLit)
 		if !ok {
@@ -806,19 +844,30 @@ func (env *specEnv) ghost(name string, targs []ast.Expr, e *ast.CallExpr) SV {
 		return x.get(env.st, x.pendingFailedKey())
 	case "ctxDone":
 		return x.get(env.st, x.ctxDoneKey())
-	case "deferActive", "deferVal":
+	case "deferActive", "deferVal", "deferObj":
 		var which string
 		if tv := env.info.Types[e.Args[0]]; tv.Value != nil {
 			which = constant.StringVal(tv.Value)
+		}
+		if name == "deferObj" {
+			k, ok := x.findDeferGhost(which, true)
+			if !ok {
+				return intLit(0)
+			}
+			return x.get(env.st, strings.TrimSuffix(k, ":active")+":ref")
 		}
 		k, ok := x.findDeferGhost(which, name == "deferActive")
 		if !ok {
 			if name == "deferActive" {
 				return tFalse
 			}
-			env.fail("no deferred restore of %q recorded", which)
+			// no deferred restore exists (any more): the value is irrelevant because
+			// deferActive is false; give it an arbitrary value of the right type
+			return x.ufS("nodefer_"+sanitize(which), x.enc.sortOf(env.typeOf(e)))
 		}
 		return x.get(env.st, k)
+	case "sameFloat":
+		return app(SBool, "=", env.evalTerm(e.Args[0]), env.evalTerm(e.Args[1]))
 	case "sameSlice":
 		a, b := env.evalTerm(e.Args[0]), env.evalTerm(e.Args[1])
 		return mkEq(a, b)
